@@ -16,6 +16,9 @@ CHECKS = {
     "C06": dict(tech="TLC trace validation of traced-Merlin operation logs of both roles against the specification's operation schedule (order-preserving embedding), RoleSync invariant",
                 text="Every transcript operation of prover and verifier (label, payload identity, order, challenges, forks, RNG construction) recorded from the real code is matched by TLC against the schedule the specification derives for the statement and proof shape; returned transcripts must drive equal follow-up challenges.",
                 note="payload identity by value on toy curves; extra identical appends tolerated (C18 demands equality)", ref="5 C06"),
+    "C07": dict(tech="TLC model checking of BatchIff/BatchCorrelated over F_7 (MC_Batch, with a failing shared-weight spec mutant) + replay of every batch pattern and order on the real batch_verify + TLC trace validation of the batch verdict from recorded weights on toy curves",
+                text="Every pattern of valid/tampered/bad-witness/+d/-d members up to the bound, in every order, and larger batches with one invalid member per position and an embedded +-d pair, run through the real batch_verify: the verdict must equal the conjunction of individual verdicts on the 256-bit curves and the specification's weighted-residual verdict on toy curves.",
+                note="patterns <= 3 (4) members, all orders for <= 3; batches of 6 (12); weights recovered from the seeded caller RNG", ref="5 C07"),
     "C08": dict(tech="TLC enumeration of structurally arbitrary proofs (MC_Hostile: TotalVerifier, ShapeGuardExact) + replay of every grid point through from_bytes/verify under catch_unwind + TLC trace validation of the exact verdict on toy31723 + seeded byte mutations with an allocation meter",
                 text="Every (gates, |L|, |R|) grid point and every field forced to identity/zero is built by surgery on an honest proof and verified on all curves; a panic or a verdict other than the specification's is a violation; decoder memory is metered against a linear bound under inflated counts and random mutations.",
                 note="grid gates <= 9 (12), lengths <= 6 (9); catch_unwind instead of the crate's panic=abort; one genuine defect found by this check and repaired (known_findings.json)", ref="5 C08, 6"),
